@@ -148,9 +148,57 @@ def unit_next_time(ctx):
   )
 
 
+def goal_bp_count(spec, pre, post):
+  """replay goal (two variants differing only in the pre-value of the pair counter): the thread's increment of ncollision is the same"""
+  inc = [int(b["ncollision_out"][0]) - int(a["ncollision_out"][0]) for a, b in zip(pre, post)]
+  return inc[0] == inc[1], f"increments of ncollision by the same thread on the same inputs, counter pre-values {[int(a['ncollision_out'][0]) for a in pre]}: {inc}"
+
+
+def unit_broadphase_count(kind):
+  """C16 needs every broadphase candidate pair to be COUNTED even when the pair buffer is full: _next_time raises the BROADPHASE
+  bit from ncollision > naconmax.  Claim: what a broadphase thread adds to ncollision does not depend on the current value of
+  the counter (nor, therefore, on whether the buffer is already full)."""
+
+  def run(ctx):
+    from checks import c18
+    from mujoco_warp._src import collision_driver as cd
+
+    NW, NG = 2, 3
+    if kind == "sap":
+      k, kt = c18.sap_thread(ctx, 0, NW, NG, summ_all=True)
+      pre, cs, nc0 = c18.sap_pre(kt, NW, NG)
+      pre = pre[:-1]  # drop 'ncollision < naconmax before the thread': the full / overflowing buffer is the point here
+      loc = "mujoco_warp._src.collision_driver:_sap_broadphase(0, 1, 1, 1, 1)"
+      ctx.bound(nworld=NW, ngeom=NG, unroll=4)
+    else:
+      k, kt = c18.nxn_thread(0, NG)
+      w, el = kt.tid
+      pr = kt.prev("nxn_geom_pair", el)
+      nc0 = kt.pre("ncollision_out", 0)
+      pre = [pr.c[0] >= 0, pr.c[0] < pr.c[1], pr.c[1] < NG, nc0 >= 0]
+      loc = "mujoco_warp._src.collision_driver:_nxn_broadphase(0, 1, 1, 1, 1)"
+      ctx.bound(ngeom=NG)
+    ctx.encode(k, cd._add_geom_pair)
+    ctx.assume("contracts of the stages before the sweep (C18), NO assumption on the pair counter except >= 0", "own accesses in bounds")
+    nmax = kt.args["naconmax_in"]
+    emitted = core.to_z3(kt.atomic_total("ncollision_out", 0), "int")
+    other = z3.Int("ncollision_other")
+    z0 = core.to_z3(nc0, "int")
+    sub = lambda e: z3.substitute(core.zbool(e) if z3.is_bool(core.to_z3(e)) else core.to_z3(e), (z0, other))
+    base = [core.zbool(b) for b in list(kt.bg) + list(pre)]
+    sess = ctx.session(base + [sub(b) for b in base] + [other >= 0, nmax >= 1])
+    ctx.reach(sess, "twin:buffer-full-vs-empty", z3.And(z0 == 0, other >= nmax, emitted >= 1))
+    rp = lib.make_replay(ctx, kt, loc, f"bpcount.{kind}", "goal", goal="checks.c16:goal_bp_count", env={"variants": [{}, {"__poke__": [["ncollision_out", [0], None, other]]}], "other": other})
+    ctx.prove(sess, "count-independent-of-counter", emitted == sub(emitted), True, names={"ncollision0": z0, "ncollision_other": other, "naconmax": nmax, "emitted": emitted}, replay=rp,
+              desc=f"{kind} broadphase: the number of candidate pairs a thread counts depends on the current value of ncollision (pairs dropped at a full buffer are no longer counted, so the BROADPHASE overflow bit cannot be raised)")
+
+  return (f"broadphase-count/{kind}", run)
+
+
 def main(tier, seed, only=None):
   units = [unit_rows(b, s) for b in BUILDERS for s in (SPECS if tier == "thorough" else SPECS[:2])]
   units.append(("next_time", unit_next_time))
+  units += [unit_broadphase_count("sap"), unit_broadphase_count("nxn")]
   if only:
     units = [u for u in units if any(o in u[0] for o in only)]
   return report.run_check(PID, units, tier, seed)
